@@ -59,6 +59,10 @@ for nm, desc in (("246", "246 bytes, no SAPs (LE = 249, the largest frame)"), ("
     h("c09_roundtrip_len_" + nm, "fdl_telegram.rs", TG, ["C09"], timeout_s=900, functions=CODEC,
       bounds="payload of exactly " + desc + "; addresses 0..127, SAP values and function code symbolic, payload content concrete (0xA5); unwind 258",
       obligation="wire bytes == reference frame, lengths agree, decode gives the identical header/payload consuming exactly the frame")
+for nm, desc, tier in (("246_t", "246 bytes, no SAPs (the largest frame)", "thorough"), ("244_both_t", "244 bytes with both SAPs", "thorough"), ("100_dsap", "100 bytes with DSAP", "quick")):
+    h("c09_roundtrip_content_len_" + nm, "fdl_telegram.rs", TG, ["C09"], tier=tier, timeout_s=2400, mem_gb=12, weight=2, functions=CODEC,
+      bounds="payload of exactly " + desc + " with FULLY SYMBOLIC content; addresses 0..127, SAP values and function code symbolic",
+      obligation="wire bytes == reference frame, lengths agree, decode gives the identical header and payload (every byte) and consumes exactly the frame")
 # ---- C10 -------------------------------------------------------------------------------------
 DEC = ["Telegram::deserialize", "DataTelegram::deserialize", "TokenTelegram::deserialize", "FunctionCode::from_byte",
        "Telegram::telegram_len"]
@@ -126,6 +130,17 @@ h("c03_receive_step_q", "dp_peripheral.rs", PV, ["C03", "C04", "C08", "C14", "C1
 h("c03_receive_step_t", "dp_peripheral.rs", PV, ["C03", "C04", "C08", "C14", "C17"], panic_props=["C03", "C04", "C05"], tier="thorough", timeout_s=3600, mem_gb=14, weight=3, functions=PERF,
   bounds="inputs 0..=32 B, diagnostics buffer 0..=32 B, PDU 0..=40 B; otherwise as _q; unwind 44", obligation="as c03_receive_step_q")
 
+h("c04_dx_large_transmit_244", "dp_peripheral.rs", PV, ["C04"], panic_props=["C04", "C05"], timeout_s=1500, mem_gb=10, weight=2, functions=PERF,
+  bounds="one transmit_telegram of a peripheral in the data exchange states (first transmission or retransmission of a Data_Exchange request), output image of exactly 244 bytes (the largest) with fully symbolic content, Operate/Clear, address/FCB/retry counter/FDL parameters symbolic; unwind 258",
+  obligation="wire bytes == reference Data_Exchange frame carrying exactly the 244-byte output image (zeros in Clear); output image not written")
+h("c04_dx_large_receive_244", "dp_peripheral.rs", PV, ["C04"], panic_props=["C04", "C05"], timeout_s=1500, mem_gb=10, weight=2, functions=PERF,
+  bounds="one receive_reply of a peripheral in the data exchange states (no diagnostics outstanding), input image of exactly 244 bytes, reply = SC or data reply without SAPs of 243/244/245 bytes with fully symbolic content and any response status; unwind 248",
+  obligation="input image changes only by a 244-byte non-error reply and then equals it byte for byte; DL/DH reply of 244 bytes updates; DataExchanged iff updated; output image untouched")
+h("c04_dx_large_transmit_129_t", "dp_peripheral.rs", PV, ["C04"], panic_props=["C04", "C05"], tier="thorough", timeout_s=1500, mem_gb=10, weight=2, functions=PERF,
+  bounds="as c04_dx_large_transmit_244 with an output image of 129 bytes; unwind 140", obligation="as c04_dx_large_transmit_244")
+h("c04_dx_large_receive_129_t", "dp_peripheral.rs", PV, ["C04"], panic_props=["C04", "C05"], tier="thorough", timeout_s=1500, mem_gb=10, weight=2, functions=PERF,
+  bounds="as c04_dx_large_receive_244 with an input image of 129 bytes (replies of 128/129/130 bytes); unwind 133", obligation="as c04_dx_large_receive_244")
+
 h("c08_request_pair_q", "dp_peripheral.rs", PV, ["C08"], panic_props=["C08", "C05"], timeout_s=1800, mem_gb=12, weight=3, functions=PERF + ["Telegram::deserialize (to read the wire)"],
   bounds="ANY peripheral state under Inv_DP -> real transmit (req1) -> interlude {request_diagnostics()?, output write?, (any FDL-admissible reply with PDU <= 8 B | time-out), request_diagnostics()?} -> real transmit (req2) [-> real transmit (req3) after an Offline event]; max_retry_limit symbolic 1..15; unwind 20",
   obligation="judged on decoded wire bytes: same FCB with FCV=1 => same destination/SAPs/service and no accepted reply in between; accepted reply => toggled FCB with FCV=1; first request after the Offline event is a diagnostics request with FCV=0/FCB=1")
@@ -171,6 +186,17 @@ h("c18_scanner_transmit", "dp_scan.rs", "dp::scan::verif", ["C18"], panic_props=
   bounds="ANY scanner state, one transmit_telegram", obligation="probes exactly the cursor address (<= 125) with a diagnostics request (DSAP 60/SSAP 62, FCB first), or advances the cursor by one modulo 126")
 h("c18_scanner_reply_or_timeout", "dp_scan.rs", "dp::scan::verif", ["C18"], panic_props=["C18", "C05"], timeout_s=600, functions=SCF,
   bounds="ANY scanner state with a request outstanding; any admissible reply (PDU <= 9 B) or a time-out", obligation="well-formed diagnostics reply => known, Found(ident, master) iff unknown else Requery; other replies => nothing; time-out => Lost iff known; no other bit changes")
+
+h("c18_livelist_history_q", "fdl_live_list.rs", "fdl::live_list::verif", ["C18"], panic_props=["C18", "C05"], timeout_s=900, functions=LLF,
+  bounds="ANY live-list state, then 4 consecutive address visits (ask / reply or time-out / next turn) against ANY stable responder population (2^128 sets) with a symbolic reply loss per visit and an optional late-token turn (high-priority cycle only) before each probe; unwind 10",
+  obligation="consecutive addresses are probed in sweep order (<= 125, only the own address may be skipped), at most one empty turn between probes; per visit Discovered iff not listed / Lost iff listed, list == ghost list built from the events; after a loss-free visit list == population at that address")
+h("c18_livelist_history_t", "fdl_live_list.rs", "fdl::live_list::verif", ["C18"], panic_props=["C18", "C05"], tier="thorough", timeout_s=3600, mem_gb=12, weight=2, functions=LLF,
+  bounds="as c18_livelist_history_q with 12 consecutive visits; unwind 14", obligation="as c18_livelist_history_q")
+h("c18_scanner_history_q", "dp_scan.rs", "dp::scan::verif", ["C18"], panic_props=["C18", "C05"], timeout_s=900, functions=SCF,
+  bounds="ANY scanner state, then 4 consecutive address visits against ANY stable population of DP peripherals (ident = symbolic high byte, address as low byte; symbolic master address), non-DP stations and silent addresses, symbolic reply loss per visit, optional late-token turn before each probe; unwind 14",
+  obligation="sweep order as for the live list; Found (with this peripheral's ident number and master address) iff unknown, Requery iff known, Lost iff known and silent, no event for non-DP stations; known set == ghost set built from the events; after a loss-free visit known == is-a-DP-peripheral at that address")
+h("c18_scanner_history_t", "dp_scan.rs", "dp::scan::verif", ["C18"], panic_props=["C18", "C05"], tier="thorough", timeout_s=3600, mem_gb=12, weight=2, functions=SCF,
+  bounds="as c18_scanner_history_q with 10 consecutive visits; unwind 14", obligation="as c18_scanner_history_q")
 
 # ---- FDL active station ------------------------------------------------------------------------------
 AV = "fdl::active::verif"
@@ -222,6 +248,16 @@ h("c20_builder_min", "harness.rs", "harness", ["C20"], crate="ext-gsd", timeout_
   stubs=["std::sync::Arc::drop_slow -> no-op (all Arcs leaked on purpose)"],
   bounds="2 symbolic constant bytes, one Unsigned8 parameter 'a' at offset 1 with symbolic MinMax constraint, symbolic default, one-entry text table with symbolic value; one set_prm or set_prm_from_text call with known/unknown name and text and symbolic value; unwind 6",
   obligation="new(): Err iff the default does not fit; block == constants overlaid with the default; set_prm/set_prm_from_text: Ok iff name and text known, range admits, value fits; block afterwards changed in exactly the parameter's byte, unchanged on error")
+h("c20_constraint_kernel", "harness.rs", "harness", ["C20"], crate="ext-gsd", timeout_s=900, functions=["PrmValueConstraint::{is_valid,assert_valid}"],
+  bounds="ALL i64 values against MinMax(any lo, any hi), Enum of 4 listed values (ANY values in ANY order, duplicates allowed, so every enumeration of 1..4 distinct values in some arrangement) and Unconstrained; unwind 7",
+  obligation="is_valid and assert_valid accept exactly: lo <= v <= hi / v is one of the listed values / everything")
+h("c20_constraint_kernel_5_t", "harness.rs", "harness", ["C20"], crate="ext-gsd", tier="thorough", timeout_s=1800, mem_gb=12, weight=2, functions=["PrmValueConstraint::{is_valid,assert_valid}"],
+  bounds="as c20_constraint_kernel with 5 listed values", obligation="as c20_constraint_kernel")
+h("c20_builder_enum", "harness.rs", "harness", ["C20"], crate="ext-gsd", timeout_s=1500, mem_gb=12, weight=2, stubbing=True,
+  functions=["PrmBuilder::{new,set_prm,as_bytes}", "UserPrmData::get_prm", "UserPrmDataDefinition::write_constrained_value_to_slice", "PrmValueConstraint::assert_valid"],
+  stubs=["std::sync::Arc::drop_slow -> no-op (all Arcs leaked on purpose)"],
+  bounds="2 symbolic constant bytes, one Unsigned8 parameter 'a' at offset 1 with an enumeration of 3 symbolic values in any order, symbolic fitting default; one set_prm call with symbolic value; unwind 6",
+  obligation="set_prm: Ok iff the value is listed and fits; block afterwards changed in exactly the parameter's byte, unchanged on error")
 h("c20_kernel_bitarea_frame_witness", "harness.rs", "harness", ["C20"], crate="ext-gsd", timeout_s=600, functions=["UserPrmDataType::write_value_to_slice"],
   bounds="ALL bit areas, ALL accepted values, ALL bytes", obligation="witness of known finding F9: writing a bit area changes no bit outside the area")
 
@@ -411,9 +447,9 @@ PROPERTIES = {
         "outside": ["the 252-callback sweep as a whole; lost replies appear as time-outs (one-step)"],
     },
     "C20": {
-        "claim": "Bounded/complete for the kernel: for ALL data types, ALL i64 values and ALL 4-byte windows write_value_to_slice accepts exactly the type's value range, writes big-endian two's complement into exactly the parameter's bits and leaves the window unchanged on rejection; builder (minimal layout: one Unsigned8 parameter over two constant bytes, symbolic range constraint, default, text table value): PrmBuilder::new, set_prm and set_prm_from_text produce exactly the reference overlay, and every error (declared range, data type, unknown name, unknown text) is a value and leaves the block unchanged.",
+        "claim": "Bounded/complete for the kernel: for ALL data types, ALL i64 values and ALL 4-byte windows write_value_to_slice accepts exactly the type's value range, writes big-endian two's complement into exactly the parameter's bits and leaves the window unchanged on rejection; declared constraints: is_valid/assert_valid accept exactly the declared range resp. the listed values (0..4 values, any order) for ALL i64 values; builder (minimal layout: one Unsigned8 parameter over two constant bytes, symbolic range constraint or 3-value enumeration, default, text table value): PrmBuilder::new, set_prm and set_prm_from_text produce exactly the reference overlay, and every error (declared range, data type, unknown name, unknown text) is a value and leaves the block unchanged.",
         "assumptions": ["bit indices 0..7 and first <= last (what a GSD file can express)", "builder: concrete heap shape (1 parameter, one-letter names, one text), Arc::drop_slow stubbed to a no-op (all Arcs are leaked on purpose; deallocation is not the subject)"],
-        "outside": ["builder layouts with several parameters / bit fields sharing a byte / Enum constraints (a two-parameter builder harness ran out of memory in CBMC's propositional reduction; the per-parameter write is covered completely by c20_kernel)"],
+        "outside": ["builder layouts with several parameters / bit fields sharing a byte / enumerations of more than 4 values (a two-parameter builder harness ran out of memory in CBMC's propositional reduction; the per-parameter write is covered completely by c20_kernel)"],
     },
     "C16": {
         "claim": "Bounded: for EVERY buffer content up to 7 (quick) / 12 (thorough) bytes the real helper methods hand over exactly the telegrams the decoder finds one after the other - in order, once, flagged last iff nothing is buffered behind - drop exactly their bytes, discard undecodable data entirely and never touch a still incomplete telegram (the helpers keep no state of their own, so chunking independence follows); additionally shown directly for 2-telegram streams from the real encoder cut at any position; garbage followed by a separately arriving telegram is received correctly. This is also the contract the telegram-level PHY (TPhy) of the station harnesses models.",
